@@ -100,6 +100,10 @@ func (se *Session) RunRound(r *sim.ParRound, raceLog string) []int16 {
 		return nil
 	}
 	tasks := make([]*task, n)
+	// Goroutines that query the same filter for the same partition share one []Relation
+	// argument (as a program that prepares its relation arguments once would do).
+	type relKey struct{ f, tgt int }
+	sharedRels := map[relKey][]ecs.Relation{}
 	for i := range tasks {
 		t := &task{id: i, script: r.Scripts[i]}
 		for _, st := range t.script {
@@ -112,6 +116,11 @@ func (se *Session) RunRound(r *sim.ParRound, raceLog string) []int16 {
 			fidx := st.F % len(se.Filters)
 			pf := se.Filters[fidx]
 			rels, exp, label := s.ParQuery(pf, st.Tgt)
+			if sr, ok := sharedRels[relKey{fidx, st.Tgt}]; ok {
+				rels = sr
+			} else {
+				sharedRels[relKey{fidx, st.Tgt}] = rels
+			}
 			m := make(map[ecs.Entity]bool, len(exp))
 			for _, h := range exp {
 				m[h] = true
